@@ -24,7 +24,7 @@ PROP = "C18"
 
 EVIDENCE = {
     "rule": "one evaluation = one simulated operation sequence (evaluate / extract / evaluate with seeded ARPACK start vectors, optional solver fault, optional rigidly moved twin) on one generated model; non-trivial = at least one eigen-solve returned pairs that were checked; distinct = distinct (mesh family, field kind, material, boundary kind, requested modes, operation sequence, start-vector seeds)",
-    "probes_expected": ["eigenpairs-checked", "start-vectors-compared", "dense-reference-compared", "mode-shape-checked", "rigid-modes-counted", "rigid-twin-compared", "fault:eigsh", "inplace-extract-then-evaluate", "mixed-container", "operator-checked", "density-changed-between-evaluations", "boundaries-changed-between-evaluations"],
+    "probes_expected": ["eigenpairs-checked", "start-vectors-compared", "dense-reference-compared", "mode-shape-checked", "rigid-modes-counted", "rigid-twin-compared", "fault:eigsh", "inplace-extract-then-evaluate", "mixed-container", "operator-checked", "density-changed-between-evaluations", "boundaries-changed-between-evaluations", "multibody-toplevel-x0"],
     "components": {
         "real": ["felupe FreeVibration / SolidBody / assembly / dof.partition", "scipy ARPACK (eigsh, shift-invert with SuperLU)"],
         "simulated": ["ARPACK start vector (seeded, instead of OS entropy)", "eigen-solver fault layer", "operation history on the shared field"],
@@ -36,6 +36,15 @@ EVIDENCE = {
 def generate(seed, tier, k):
     S = Streams(seed)
     r = S["gen"]
+    if k % 9 == 8:
+        # multi-body model: two bodies on sub-meshes that share the points, top-level field as x0
+        dim_ = r.choice([2, 3])
+        mesh_ = gen.gen_mesh(r, dim=dim_, allow=("linear",), max_cells=8 if dim_ == 3 else 12)
+        if dim_ == 2 and mesh_["n"][0] * mesh_["n"][1] < 9:
+            mesh_["n"] = [3, 3]
+        if dim_ == 3 and (mesh_["n"][0] - 1) * (mesh_["n"][1] - 1) * (mesh_["n"][2] - 1) < 2:
+            mesh_["n"] = [3, 2, 2]
+        return {"kind": "c18mb", "seed": seed, "mesh": mesh_, "E": [gen.rfloat(r, 0.5, 10.0), gen.rfloat(r, 0.5, 10.0)], "nu": gen.rfloat(r, 0.0, 0.4), "density": [gen.rfloat(r, 0.5, 8.0), gen.rfloat(r, 0.5, 8.0)], "k": r.choice([2, 4, 6]), "v0_seed": r.randrange(1 << 30), "n": r.choice([0, 1, -1])}
     dim = r.choice([2, 3, 3])
     mixed = r.random() < 0.08
     fam = r.choice(["linear", "linear", "quadratic", "full", "simplex", "simplex2"]) if not mixed else r.choice(["linear", "simplex2"])
@@ -197,7 +206,72 @@ def check_pairs(doc, log, rec, vals, vecs, K11, M11, site):
     log.count("eigenpairs-checked", len(vals))
 
 
+def run_multibody(doc, log):
+    """Documented multi-body layout: items on sub-meshes, boundaries and x0 on the top-level field."""
+    m = world.build_mesh(doc["mesh"])
+    half = m.ncells // 2
+    if half < 1:
+        raise Discard("single-cell-mesh")
+    subs = [fem.Mesh(m.points, m.cells[:half], m.cell_type), fem.Mesh(m.points, m.cells[half:], m.cell_type)]
+    import warnings
+
+    with warnings.catch_warnings():
+        warnings.simplefilter("ignore")
+        regions = [world.build_region(s_) for s_ in subs]
+        rtop = world.build_region(m)
+    d = m.dim
+    mk = (lambda rg: fem.FieldPlaneStrain(rg, dim=2)) if d == 2 else (lambda rg: fem.Field(rg, dim=3))
+    fields = [fem.FieldContainer([mk(rg)]) for rg in regions]
+    top = fem.FieldContainer([mk(rtop)])
+    bounds = {"fix": fem.Boundary(top[0], fx=float(m.points[:, 0].min()))}
+    solids = [fem.SolidBody(fem.LinearElasticLargeStrain(E=doc["E"][i], nu=doc["nu"]), fields[i], density=doc["density"][i]) for i in range(2)]
+    job = fem.FreeVibration(solids, bounds)
+    sim = SimEigsh(log)
+    sim.v0_seed = doc["v0_seed"]
+    n = m.npoints * d
+    K = np.zeros((n, n))
+    M = np.zeros((n, n))
+    eye = np.eye(d).reshape(d, d, 1, 1)
+    for i in range(2):
+        cold = fem.SolidBody(fem.LinearElasticLargeStrain(E=doc["E"][i], nu=doc["nu"]), fem.FieldContainer([mk(regions[i])]))
+        K += cold.assemble.matrix().toarray()
+        plain = fem.Field(regions[i], dim=d)
+        fun = doc["density"][i] * np.broadcast_to(eye, (d, d) + regions[i].dV.shape)
+        M += refmodel.assemble_bilinear([plain], [plain], regions[i].dV, [fun], [False], [False], [(0, 0)])
+    fixed = set(int(v) for v in bounds["fix"].dof)
+    dof1 = np.array([i for i in range(n) if i not in fixed], dtype=int)
+    nk = min(doc["k"], len(dof1) - 2)
+    if nk < 1:
+        raise Discard("too-few-free-unknowns")
+    try:
+        job.evaluate(x0=top, solver=sim, k=nk)
+    except RuntimeError as e:
+        if "singular" in str(e).lower():
+            raise Discard("singular-shift")
+        raise
+    rec = sim.records[-1]
+    K11, M11 = K[np.ix_(dof1, dof1)], M[np.ix_(dof1, dof1)]
+    if rec["A"].shape != K11.shape or not np.array_equal(np.sort(job.dof1), dof1):
+        raise Violation(PROP, "operator-handed-over", f"multi-body model: free unknowns of the analysis ({len(job.dof1)}) differ from the unknowns of the top-level field not selected by any boundary ({len(dof1)})", site="FreeVibration.dof1.multibody")
+    for nm, A_, B_ in (("stiffness", rec["A"].toarray(), K11), ("mass", rec["M"].toarray(), M11)):
+        ok, rel = close_exact_twin(A_, B_, rtol=1e-10, atol=1e-12 * float(np.abs(B_).max()))
+        if not ok:
+            raise Violation(PROP, "operator-handed-over", f"multi-body model: {nm} handed to the eigen-solver is not the sum over the bodies on the free unknowns (rel {rel:.2e})", site=f"FreeVibration.{nm}.multibody")
+    vals, vecs = np.asarray(job.eigenvalues), np.asarray(job.eigenvectors)
+    check_pairs(doc, log, rec, vals, vecs, K11, M11, "FreeVibration.evaluate[multibody]")
+    nn = doc["n"] if -len(vals) <= doc["n"] < len(vals) else 0
+    field, freq = job.extract(n=nn, x0=top, inplace=False)
+    full = np.zeros(n)
+    full[dof1] = vecs[:, nn]
+    if not np.array_equal(field[0].values.ravel(), full):
+        raise Violation(PROP, "mode-shape", "multi-body model: extracted mode shape is not the eigenvector scattered to the free unknowns of the top-level field", site="FreeVibration.extract.multibody")
+    log.count("multibody-toplevel-x0")
+    return {"signature": f"multibody|{m.cell_type}|{nk}", "nontrivial": True, "faults_fired": [], "sim": {"eigen_solves": sim.calls, "operations": 2}}
+
+
 def run(doc, log):
+    if doc.get("kind") == "c18mb":
+        return run_multibody(doc, log)
     doc0 = doc
     w = build(doc)
     if pick(doc["seed"], "empty-dict", 3) == 0 and w.boundaries:
@@ -443,6 +517,8 @@ def build_like(doc, w):
 
 def shrink(doc):
     out = []
+    if doc.get("kind") == "c18mb":
+        return out
     n = len(doc["ops"])
     for i in range(n - 1, 0, -1):
         d = copy.deepcopy(doc)
